@@ -33,7 +33,8 @@ pub fn read_checked(bytes: &[u8], orig: &BTreeMap<String, Vec<u8>>, order: &[usi
 /// option documented as concerning the fail-safe reader only; the normal reader must still authenticate.
 pub fn read_checked_cfg(bytes: &[u8], orig: &BTreeMap<String, Vec<u8>>, order: &[usize], rb: usize, failsafe_opt: bool, transitions: &mut u64) -> Outcome {
     let r = guard(|| -> Outcome {
-        let mut rc = prog::reader_config(&[0]);
+        // the reader holds the recipient's key alone, or (small reads) after a key that is not a recipient's
+        let mut rc = if rb == 7 { prog::reader_config(&[7, 0]) } else { prog::reader_config(&[0]) };
         if failsafe_opt {
             rc.failsafe_return_data_even_unauthenticated();
         }
@@ -244,6 +245,13 @@ pub fn mutants(base: usize, a: &[u8], sibling: &[u8], evil: &[u8], hl: usize, th
         b.extend_from_slice(&evil[9..]);
         push("downgrade_to_cleartext", "ENCRYPT layer bit cleared in the header, body replaced by an unencrypted archive body".to_string(), b, true, &mut out);
     }
+    // incoherent header: ENCRYPT bit kept, encryption parameters removed (option tag 0), unencrypted body
+    if evil.len() > 9 {
+        let mut b = a[..8].to_vec();
+        b.push(0);
+        b.extend_from_slice(&evil[9..]);
+        push("header_encrypt_bit_without_parameters", "ENCRYPT layer bit kept but the encryption parameters removed from the header, body replaced by an unencrypted archive body".to_string(), b, true, &mut out);
+    }
     // low-order point as ephemeral key
     let mut b = a.to_vec();
     b[9..41].copy_from_slice(&[0u8; 32]);
@@ -303,7 +311,10 @@ fn cli_downgrade(cases: &[(Vec<u8>, Vec<u8>)], rep: &mut Report) {
         let mut kept = header.clone();
         kept[7] &= !1u8;
         kept.extend_from_slice(&evil[9..]);
-        for (form, bytes) in [("encryption parameters kept", kept), ("plain unencrypted archive", evil.clone())] {
+        let mut incoherent = header[..8].to_vec();
+        incoherent.push(0);
+        incoherent.extend_from_slice(&evil[9..]);
+        for (form, bytes) in [("encryption parameters kept", kept), ("plain unencrypted archive", evil.clone()), ("ENCRYPT bit kept, parameters removed", incoherent)] {
             let _ = std::fs::write(dir.join("d.mla"), &bytes);
             for cmd in [vec!["list"], vec!["cat", "evil"], vec!["extract", "-o", "x"], vec!["extract", "-o", "x", "--glob", "*"], vec!["to-tar", "-o", "x.tar"], vec!["convert", "-l", "-o", "c.mla"], vec!["repair", "-l", "-o", "r.mla"], vec!["repair", "-l", "-o", "r.mla", "--allow-unauthenticated-data"]] {
                 rep.evaluations += 1;
@@ -494,7 +505,7 @@ pub fn run(started: Instant) -> i32 {
             level: "fault_enumeration",
             rule: "encrypted base archives from the real writer (3 interleaved files, >=5 chunks; encrypt and encrypt+compress); mutants: every single-bit flip of every byte, every byte set to 00/FF, every truncation, all chunk swaps/duplications/deletions/replacements (same archive, sibling archive with another key), header field edits, and the downgrade (encryption bit cleared + unencrypted body substituted; also presented to the mlar binary with a private key, which must refuse it); each opened with the real ArchiveReader and all files read in all 6 orders (chunk edits, identity) or one rotating order, 7-byte or 4096-byte reads, reader configuration alternating between the default and one with the fail-safe-only option failsafe_return_data_even_unauthenticated() set. Oracle: every Ok(n) read equals the original bytes at that position (reads repeated on the same handle after an error included), no file ends early without an error, no flipped bit after the header goes unnoticed, no foreign name listed, the unaltered archive reads back completely - also for every first-file length 0..=block+chunk+tag+8 (3 files, encrypt and encrypt+compress), i.e. every alignment of the end of the inner stream. non-trivial = distinct (mutant, order) other than identity".to_string(),
             exhaustive: true,
-            bounds: json!({"bases": progs.len(), "mutation_operators": ["bitflip(all bits of all bytes)", "byteset 00/FF", "truncate(all lengths)", "chunk swap/duplicate/delete/replace/sibling/last-to-front", "header zero/increment/low-order point", "cut on a chunk edge of an archive whose content embeds an index ending on that edge (chosen content)", "downgrade: ENCRYPT bit cleared + unencrypted body (library: known finding; mlar with a key: must refuse: list, cat, extract (both forms), to-tar, convert, repair (both modes) x 2 forms)"], "read_orders": "all 6 permutations for chunk edits and identity; rotating single order otherwise"}),
+            bounds: json!({"bases": progs.len(), "mutation_operators": ["bitflip(all bits of all bytes)", "byteset 00/FF", "truncate(all lengths)", "chunk swap/duplicate/delete/replace/sibling/last-to-front", "header zero/increment/low-order point", "cut on a chunk edge of an archive whose content embeds an index ending on that edge (chosen content)", "header with the ENCRYPT bit but no encryption parameters + unencrypted body (must be refused)", "downgrade: ENCRYPT bit cleared + unencrypted body (library: known finding; mlar with a key: must refuse: list, cat, extract (both forms), to-tar, convert, repair (both modes) x 2 forms)"], "read_orders": "all 6 permutations for chunk edits and identity; rotating single order otherwise"}),
             assumptions: vec!["scaled constants; panics are counted here but judged by C08".to_string(), "forging a tag is assumed infeasible".to_string()],
         },
         started,
